@@ -8,7 +8,7 @@ BUILT = sys.argv[1].split(",") if len(sys.argv) > 1 else ["C14", "C15", "C16", "
 CHECKS = {
  "C14": dict(cat="exploration", ref="DESIGN.md §4.5",
    text="Seeded simulation of a writer laying sequence files out on a simulated disk (a fault-injecting layer over real scratch files; incl. torn writes and single-character corruptions) and of the reader fetching them through CPython's real text/buffer layers over a simulated raw device with short reads, EIO and open errors; every parse is compared with an independent grammar-level reference parser applied to the bytes on the simulated disk (open handles are counted as a probe, not a verdict). Sampling, not proof.",
-   note="Trusts the reference parser (written from the statement), CPython's io stack (real Text/Buffered layers over a fault-injecting raw layer on real scratch files), and that ambiguous layouts (whitespace at line ends, characters some splitters treat as line boundaries, BOM, lone CR, non-ASCII digits, empty result) are outside the statement: they are DISCARDED, not judged; a file with lower-case residue letters may be rejected or must parse to exactly the upper-cased residues.",
+   note="Trusts the reference parser (written from the statement), CPython's io stack (real Text/Buffered layers over a fault-injecting raw layer on real scratch files), and that ambiguous layouts (whitespace at line ends, characters some splitters treat as line boundaries, BOM, lone CR, non-ASCII digits, empty result) are outside the statement: they are DISCARDED, not judged; a file with lower-case residue letters may be rejected or must parse to exactly the upper-cased residues. Reader-side faults (short reads, EIO, open errors) pass through the parser module's `open` name: a tree that reads the file through os.read or pathlib is still judged on its results, but those faults do not reach it (DESIGN.md §11.9).",
    tech="deterministic simulation: simulated disk + fault-injected reads vs reference parser"),
  "C15": dict(cat="exploration", ref="DESIGN.md §4.3",
    text="Seeded scheduler interleaves read-only queries (valid and failing) from several live objects; every returned value is compared bit-for-bit with the same call on a fresh object in a pristine forked interpreter that has only replayed the object's mutators. Sampling of histories, not proof.",
